@@ -47,7 +47,8 @@ def cases_for(tier):
             c = {"spec": spec, "plan": [f], "fm": _recov.FM(8)}
             out.append(dict(c, bound=0))
             out.append(dict(c, idle_only=True, bound=1 if quick else 2))
-        if not quick:
+        if not quick and not spec.get("sites"):  # (pairs of faults on the two-site shapes: their replica bookkeeping is only
+            # validated for single faults -- DESIGN 8.13)
             js = _exec.program_jobs(spec)
             ex_faults = [f for f in faults if f["phase"] == "execute" and f["count"] == 1 and f.get("lose", "own") in ("own", "all")]
             for i in range(len(ex_faults)):
